@@ -114,6 +114,10 @@ def parse(lines, tolerant):
     ns = sut.load()
 
     try:
+        if not tolerant and len(lines) % 2:
+            # the documented default
+            return ns.unified_diffs.get_unified_diff_hunks(list(lines)), None
+
         return ns.unified_diffs.get_unified_diff_hunks(
             list(lines), ignore_garbage=tolerant), None
     except Exception as e:
